@@ -37,6 +37,12 @@ def ident_ok(line: str) -> bool:
         return False
 
 
+def ident_questionable(line: str) -> bool:
+    """A '/' inside the identification part: IEC 62056-21 excludes it, the pinned code accepts it.  The property does not
+    say which is right, so oracles treat such lines as "don't care" for the identification clauses."""
+    return len(line) > 5 and "/" in line[5:]
+
+
 def ident_fields(line: str):
     """(manufacturer id, identification or None) for a well-formed line, escape sequences removed greedily
     the way a regular expression with backtracking would (longest run of escapes that leaves <=16 id chars)."""
@@ -96,7 +102,7 @@ def dissect(B: bytes):
     return {
         "bytes": B, "end": e, "data_pos": data_pos, "trailer": trailer, "is_checksum": is_cs,
         "crc": crc16_arc(B[:e + 1]), "sent": int(trailer, 16) if is_cs else None,
-        "ident_line": ident_line, "ident_ok": ident_good, "payload": B[data_pos:e] if data_pos <= e else b"",
+        "ident_line": ident_line, "ident_ok": ident_good, "ident_dontcare": bool(ident_line) and ident_questionable(ident_line), "payload": B[data_pos:e] if data_pos <= e else b"",
         "ascii": B.isascii(),
     }
 
